@@ -285,16 +285,26 @@ def _run_point(case, ctx):
     units = dict(gen.DEFAULT_UNITS, pressure_mode="absolute" if absolute else r.choice(["relative", "relative%"]), pressure_unit=pu)
     pmax = 1.0 if units["pressure_mode"] != "relative%" else 100.0
     ps = gen.increasing(r, n, 1e-4 * pmax, pmax * 0.9, log=r.random() < 0.5)
-    shape = r.choice(["increasing", "increasing", "concave", "with-plateau"])
+    shape = r.choice(["increasing", "increasing", "concave", "with-plateau", "no-uptake-at-first"])
     if shape == "concave":
         ls = [5 * p / (p + 0.1 * pmax) for p in ps]
     elif shape == "with-plateau":
         ls = gen.increasing(r, n, 0.1, 5.0)
         ls[-1] = ls[-2] if n > 2 else ls[-1]
+    elif shape == "no-uptake-at-first" and n >= 3:
+        # type III / V: the first measured point(s) show no uptake yet (zero loading at a positive pressure)
+        ls = gen.increasing(r, n, 0.01, 20.0)
+        for j in range(r.randint(1, max(1, n // 3))):
+            ls[j] = 0.0
     else:
         ls = gen.increasing(r, n, 0.01, 20.0)
     two = r.random() < 0.3 and n >= 4
     pp, ll, bb = list(ps), list(ls), [0] * n
+    origin = case["seed"] % 4 == 0
+    if origin:
+        # the series starts with the origin point, as instruments report it; the interpolant from it to the first point *is* the Henry line
+        pp, ll, bb = [0.0] + pp, [0.0] + ll, [0] + bb
+        ctx.count("point_shapes", "starts-with-origin-point")
     if two:
         pp += [ps[-1] * 0.8, ps[-1] * 0.5]
         ll += [ls[-1] * 1.1, ls[-1] * 0.9]
